@@ -133,7 +133,18 @@ Definition fs_copy (e : env) (s : fs) (p : path) (c : N) (srcmode : N) : fs * re
 
 (* ---- configuration of one run -------------------------------------------------------------- *)
 Inductive filepp :=
-| PPSetFileMode (m : N).        (* nunavut._postprocessors.SetFileMode(m) *)
+| PPSetFileMode (m : N)         (* nunavut._postprocessors.SetFileMode(m) *)
+| PPExternal (f : N -> N).      (* ExternalProgramEditInPlace (--pp-run-program): an arbitrary program that rewrites the file it
+                                   is given, in place; f = its effect on the content *)
+
+(* the program opens the generated file for update: follows nothing but the path it was given *)
+Definition fs_edit (e : env) (s : fs) (p : path) (f : N -> N) : fs * result :=
+  match s p with
+  | None => (s, Err ENoEnt)
+  | Some m => if f_isdir m then (s, Err EIsDir)
+              else if writable e m then (upd s p (set_cid m (f (f_cid m))), Ok)
+              else (s, Err EAccess)
+  end.
 
 Inductive gsmode := GSAlways | GSNever | GSAsNeeded | GSOnly.     (* --generate-support *)
 
